@@ -380,12 +380,12 @@ def correspondence(ctx):
     ft.mdft.clear()
     ft.czt.clear()
     try:
-        _transforms(ctx, ft, pr, config)
-        _fft_route(ctx, ft, pr, config)
-        _czt_basis(ctx, ft, pr, config)
-        _dispatch(ctx, ft, pr, config)
-        _large(ctx, ft, pr, config)
-        _histories(ctx, ft, pr, config)
+        import os, sys, time
+        for stream in (_transforms, _fft_route, _czt_basis, _dispatch, _large, _histories):
+            t0 = time.time()
+            stream(ctx, ft, pr, config)
+            if os.environ.get('VERIF_PROFILE'):
+                print(f'profile C01 {stream.__name__}: {time.time() - t0:.1f} s', file=sys.stderr)
     finally:
         config.precision = 64
         ft.mdft.clear()
@@ -393,8 +393,8 @@ def correspondence(ctx):
 
 
 def _transforms(ctx, ft, pr, config):
-    reps = ctx.scale(7, 140)
-    nbig = ctx.scale(33, 660)
+    reps = ctx.scale(4, 140)
+    nbig = ctx.scale(18, 660)
     if ctx.widen:
         reps = max(reps, 12)
     shapes = list(itertools.product(range(1, 10), repeat=2))
@@ -516,7 +516,7 @@ def _fft_route(ctx, ft, pr, config):
             dtype = ['complex128', 'float64', 'complex64', 'bool', 'float32', 'int64'][int(ctx.rng.integers(6))]
             cases.append({'shape': list(shp), 'Q': Q, 'dtype': dtype, 'seed': int(ctx.rng.integers(1 << 30)),
                           'dir': -1 if (i + rep) % 2 == 0 else 1, 'layout': gen_layout(ctx.rng)})
-    for _ in range(ctx.scale(10, 120)):
+    for _ in range(ctx.scale(6, 120)):
         shp = (int(ctx.rng.integers(10, 25)), int(ctx.rng.integers(10, 18)))
         cases.append({'shape': list(shp), 'Q': [1, 2, 1.5][int(ctx.rng.integers(3))], 'dtype': 'complex128',
                       'seed': int(ctx.rng.integers(1 << 30)), 'dir': -1 if ctx.rng.random() < 0.5 else 1})
@@ -609,7 +609,7 @@ def _large(ctx, ft, pr, config):
     """realistic sizes (the Lean oracle is an interpreted O(n^4) sum, so the oracle here is the NumPy double sum `spec2_numpy`):
     catches edits that only act beyond the small-scope sizes; single-precision tolerance scales with the axis length"""
     hi = ctx.scale(140, 513)
-    for _ in range(ctx.scale(10, 120)):
+    for _ in range(ctx.scale(6, 120)):
         c = large_case(ctx.rng, hi)
         for method in ('mdft', 'czt'):
             cc = dict(c, method=method)
@@ -714,7 +714,7 @@ def check_dispatch(c, verbose=False, oracle=None):
 def _dispatch(ctx, ft, pr, config):
     """the propagation-level entry points (functions and Wavefront methods, both engines) against the textbook sum on the
     PHYSICAL grid: per-axis Q and shift conversion are computed independently here (oracle: Lean `spec2`)"""
-    cases = [dispatch_case(ctx.rng) for _ in range(ctx.scale(80, 800))]
+    cases = [dispatch_case(ctx.rng) for _ in range(ctx.scale(50, 800))]
     lines = []
     for c in cases:
         Q, sh, d = dispatch_expect(c)
@@ -1034,7 +1034,7 @@ def systematic_histories():
 def _histories(ctx, ft, pr, config):
     nh = ctx.scale(60, 1500)
     hs = systematic_histories()
-    nh = max(nh, len(hs) + ctx.scale(30, 1000))
+    nh = max(nh, len(hs) + ctx.scale(15, 1000))
     while len(hs) < nh:
         hs.append(gen_history(ctx.rng, int(ctx.rng.integers(3, 41))))
     lines, keep = [], []
@@ -1365,8 +1365,10 @@ MANIFEST_ENTRY = {
              'path, indexed by dft2 / idft2 / dft2_backprop / idft2_backprop / czt2 after _setup_bases(key), re-initialised by clear(); '
              'this protocol is TRANSLATED per executor and its soundness is an obligation): after every history of calls of any entry '
              'point and clear()s a call raises no KeyError and every entry it indexes is the freshly built one (invariant by induction '
-             'over histories); examples show each soundness clause is necessary. Key normalisation in _key (broadcast / int / float) and '
-             'Python equality of keys are outside the machine (history stream only). Every translated obligation is consumed by a property '
+             'over histories); examples show each soundness clause is necessary. (7) the normalisation of argument forms in _key and in the head of czt2 is TRANSLATED (per parameter: scalar broadcast, '
+             'element conversion float / int / as given; both engines alike) and two forms give the same key component exactly when they '
+             'denote the same sampling after the conversion (no TypeError for any form). Python equality of unconverted key elements '
+             '(1 == 1.0 in a shift) is outside the machine (history stream only). Every translated obligation is consumed by a property '
              'theorem. MODELLED AND COMPARED each run: NumPy execution of all routes (incl. dtype promotion, argument forms, dispatch '
              'layer, Wavefront wrappers, backprop entry points, histories) against the Lean model evaluated in Float and the Lean '
              'double-sum oracle; sizes beyond 26 only against a NumPy double sum.'),
